@@ -334,7 +334,16 @@ mod server {
                             ast::RuleRhs::Rhs { kind: ast::RuleKind::Fallible, .. } => "fallible",
                             ast::RuleRhs::Rhs { kind: ast::RuleKind::Infallible, .. } => "infallible",
                         };
-                        write!(out, " kind {} rhs {}", kind, idx.as_usize()).unwrap();
+                        // ... and the text of that table entry (so that the numbering itself need not be compared)
+                        let expr = match rhs {
+                            ast::RuleRhs::None => String::from("-"),
+                            ast::RuleRhs::Rhs { expr, .. } => {
+                                use quote::ToTokens;
+                                let text = expr.to_token_stream().to_string();
+                                text.split_whitespace().collect::<Vec<_>>().join("")
+                            }
+                        };
+                        write!(out, " kind {} rhs {} expr {}", kind, idx.as_usize(), expr).unwrap();
                     }
                 }
             }
